@@ -544,7 +544,27 @@ func gen(body []byte) *core.Verdict {
 			}
 			ps = append(ps, p)
 		}
-		if rng.Intn(3) > 0 { // mostly ascending, as the RFC wants
+		if k := int64(3 + rng.Intn(3)); rng.Intn(6) == 0 && span.Cmp(big.NewInt(3*k+2)) > 0 {
+			// a comb and its bridge: k two-value parts with a one-value gap between neighbours, and one more part that fills
+			// every gap at once (it touches the first and the last tooth, covers the others), written anywhere among them
+			room := new(big.Int).Sub(span, big.NewInt(3*k+1))
+			x := new(big.Int).Rand(rng, room)
+			x.Add(x, t.lo)
+			ps = ps[:0]
+			for i := int64(0); i < k; i++ {
+				lo := new(big.Int).Add(x, big.NewInt(3*i))
+				ps = append(ps, part{lo, new(big.Int).Add(lo, big.NewInt(1))})
+			}
+			bridge := part{new(big.Int).Add(x, big.NewInt(2)), new(big.Int).Add(x, big.NewInt(3*(k-1)-1))}
+			at := rng.Intn(len(ps) + 1)
+			if rng.Intn(2) == 0 {
+				at = len(ps)
+			}
+			ps = append(ps[:at], append([]part{bridge}, ps[at:]...)...)
+			for _, p := range ps {
+				pool = append(pool, p.lo, p.hi)
+			}
+		} else if rng.Intn(3) > 0 { // mostly ascending, as the RFC wants
 			sort.SliceStable(ps, func(i, j int) bool {
 				if ps[i].lo == nil || ps[j].lo == nil {
 					return ps[i].lo == nil && ps[j].lo != nil
